@@ -726,7 +726,7 @@ func typedAPI(repM, repU *Report, wM, wU *CaseWriter, r *rand.Rand, thorough boo
 	apiUnmarshalSinkReuse(repU)
 	apiRound7Typed(repM, repU)
 	apiKeysNaNAndCycles(repM, "C08")
-	apiUnicodeFieldNames(repU)
+	apiUnicodeFieldNames(repM, repU)
 	apiOddsAndEnds(repM, repU)
 	apiPromotedRules(repU)
 	apiSameStringTypes(repU)
@@ -2150,7 +2150,7 @@ type UniFields struct {
 	A1_b  bool
 }
 
-func apiUnicodeFieldNames(repU *Report) {
+func apiUnicodeFieldNames(repM, repU *Report) {
 	v := UniFields{Größe: 3, Δt: 1.5, Ω: "o", Ärger: []int{1}, A1_b: true}
 	for _, x := range []any{v, []any{v}, map[string]any{"k": v}} {
 		ts, err := marshalTokens(x, nil)
@@ -2180,7 +2180,7 @@ func apiUnicodeFieldNames(repU *Report) {
 		}
 	}
 	if nnames != 5 {
-		repU.violate("C08", "exported-field-omitted", fmt.Sprintf("a struct with five exported fields (four non-ASCII names) marshals to [%s]", truncate(descTokens(ts), 300)), "UniFields")
+		repM.violate("C08", "exported-field-omitted", fmt.Sprintf("a struct with five exported fields (four non-ASCII names) marshals to [%s]", truncate(descTokens(ts), 300)), "UniFields")
 		repU.violate("C01", "roundtrip-not-equivalent", fmt.Sprintf("a struct with five exported fields (four non-ASCII names) marshals to [%s]", truncate(descTokens(ts), 300)), "UniFields")
 	}
 	if e := guard(func() error { return copyBudget(tokensFrom(ts), sb.Unmarshal(&back)) }); e != nil || !reflect.DeepEqual(back, v) {
